@@ -440,8 +440,8 @@ func fo2sec(fo *FailOverClientTransport) (*TCPClientTransport, bool) {
 }
 
 func TestC20(t *testing.T) {
-	V.Rule("unit, fault enumeration: cached inbound connection {absent, healthy, failing on write after 0 / 1 / len-1 bytes} x reconnectable path {absent, fresh, stale connection failing once then destination accepts, destination refusing, destination accepting then resetting, the same with the reset observed before the write (connection-established callback waits for it: every write then fails for certain)} x send sequences of 1-3 distinct messages x subject {FailOverClientTransport over TCPClientTransports, TCPBackend (cached connection x destination)} x {no local address configured, a local address configured for outbound connections} enumerated completely; plus rapid-generated sequences of up to 12 sends with faults re-armed between sends (cached connection breaks later; peer drops the reconnectable connection). Scripted net.Conn doubles record every Write; real loopback listeners record every accepted connection's bytes. Oracle: success => some connection received the complete message (not asserted for a resetting destination); a working path (healthy cached connection or accepting destination) => the send must succeed; all writes failed for certain (reset observed) => the send must not report success; refusing destination => error within the call, no hang, no panic; a failed cached connection is never written again; every real connection holds a concatenation of complete messages; no message is written completely twice. non-trivial = scenario in which a write or dial fails and a later attempt exists; distinct by scenario")
-	V.Require("a local address is configured for outbound connections", "fault hit", "subject:failover", "subject:tcpbackend", "secondary:refusing", "secondary:reset", "secondary:stale", "primary:fail@len-1")
+	V.Rule("unit, fault enumeration: cached inbound connection {absent, healthy, failing on write after 0 / 1 / len-1 bytes} x reconnectable path {absent, fresh, stale connection failing once then destination accepts, destination refusing, destination accepting then resetting, the same with the reset observed before the write (connection-established callback waits for it: every write then fails for certain)} x send sequences of 1-3 distinct messages x subject {FailOverClientTransport over TCPClientTransports, TCPBackend (cached connection x destination)} x {no local address configured, a local address configured for outbound connections} enumerated completely; plus rapid-generated sequences of up to 12 sends with faults re-armed between sends (cached connection breaks later; peer drops the reconnectable connection). Plus histories on the table of client transports itself (per-transaction entries towards one accepting destination sharing its reconnectable path, cached connections absent / healthy / failing, final responses removing their entry before the send, the once-a-minute sweep forced): every send succeeds and writes its message exactly once. Scripted net.Conn doubles record every Write; real loopback listeners record every accepted connection's bytes. Oracle: success => some connection received the complete message (not asserted for a resetting destination); a working path (healthy cached connection or accepting destination) => the send must succeed; all writes failed for certain (reset observed) => the send must not report success; refusing destination => error within the call, no hang, no panic; a failed cached connection is never written again; every real connection holds a concatenation of complete messages; no message is written completely twice. non-trivial = scenario in which a write or dial fails and a later attempt exists; distinct by scenario")
+	V.Require("table: send through a per-transaction entry", "a local address is configured for outbound connections", "fault hit", "subject:failover", "subject:tcpbackend", "secondary:refusing", "secondary:reset", "secondary:stale", "primary:fail@len-1")
 	env, err := newC20Env(210)
 	if err != nil {
 		V.HarnessError(t, "environment: %v", err)
@@ -522,5 +522,147 @@ func TestC20(t *testing.T) {
 		if fail != "" {
 			failf(rt, "%s", fail)
 		}
+	})
+	// The same promises at the level where the proxy keeps its transports: the
+	// table of client transports. Transactions towards one TCP destination get
+	// per-transaction entries (GetTransport with a transaction id) that share the
+	// reconnectable path of the destination; each may have the connection its
+	// request arrived on as cached connection; final responses remove their entry
+	// before they are sent (as sendMessage does), and once a minute the table is
+	// swept. Whatever was removed or swept before: a send whose cached connection
+	// is absent or fails falls back to a fresh connection to the destination -
+	// which accepts - and succeeds, the message written there exactly once.
+	rcheck(t, "table-histories", V.N(400, 4000), func(rt *rapid.T) {
+		mgr := NewClientTransportMgr(func(net.Conn) {})
+		dh, dps, _ := net.SplitHostPort(env.accept.addr)
+		dp := 0
+		fmt.Sscanf(dps, "%d", &dp)
+		local := ""
+		if rapid.Bool().Draw(rt, "local address") {
+			local = env.localIP
+		}
+		startA := env.accept.count()
+		defer func() {
+			// release the connections the table dialled (reset: no TIME_WAIT pile-up)
+			mgr.Lock()
+			for _, tr := range mgr.transports {
+				if st, ok := tr.secondary.(*TCPClientTransport); ok && st != nil && st.conn != nil {
+					if tc, ok := st.conn.(*net.TCPConn); ok && tc != nil {
+						tc.SetLinger(0)
+					}
+					st.conn.Close()
+				}
+			}
+			mgr.Unlock()
+		}()
+		type txn struct {
+			id      string
+			cached  *c20Conn
+			removed bool
+		}
+		var txns []*txn
+		var hist []string
+		sent := 0
+		steps := rapid.IntRange(2, 14).Draw(rt, "steps")
+		for i := 0; i < steps; i++ {
+			switch op := rapid.IntRange(0, 5).Draw(rt, "op"); {
+			case op == 0 || len(txns) == 0: // a request arrives (over a connection of its own, or over UDP: no cached connection)
+				tx := &txn{id: fmt.Sprintf("INVITE-z9hG4bKt%d", len(txns))}
+				tr, err := mgr.GetTransport("tcp", dh, dp, local, tx.id)
+				if err != nil {
+					failf(rt, "history %v: GetTransport failed: %v", hist, err)
+				}
+				switch rapid.IntRange(0, 2).Draw(rt, "cached connection") {
+				case 1:
+					tx.cached = &c20Conn{name: tx.id, failAfter: -1}
+				case 2:
+					tx.cached = &c20Conn{name: tx.id, failAfter: rapid.SampledFrom([]int{0, 1, 40}).Draw(rt, "fails after")}
+				}
+				if tx.cached != nil {
+					tr.primary, _ = NewTCPClientTransportWithConn(tx.cached)
+				}
+				txns = append(txns, tx)
+				hist = append(hist, fmt.Sprintf("request %s (cached connection: %v)", tx.id, map[bool]string{true: "none"}[tx.cached == nil]+map[bool]string{true: "healthy or failing"}[tx.cached != nil]))
+			case op == 1: // a minute passes
+				mgr.Lock()
+				mgr.lastCleanTime -= 61
+				mgr.Unlock()
+				hist = append(hist, "a minute passes")
+			default: // a response is relayed: provisional, or final (entry removed first)
+				tx := txns[rapid.IntRange(0, len(txns)-1).Draw(rt, "which")]
+				final := rapid.Bool().Draw(rt, "final")
+				tr, err := mgr.GetTransport("tcp", dh, dp, local, tx.id)
+				if err != nil {
+					failf(rt, "history %v: GetTransport failed: %v", hist, err)
+				}
+				if final {
+					mgr.RemoveTransport("tcp", dh, dp, tx.id)
+					tx.removed = true
+				}
+				mi := sent % len(env.msgs)
+				sent++
+				hist = append(hist, fmt.Sprintf("response for %s (final: %v)", tx.id, final))
+				V.Case(hist)
+				done := make(chan error, 1)
+				go func() {
+					defer func() {
+						if r := recover(); r != nil {
+							done <- fmt.Errorf("panic: %v", r)
+						}
+					}()
+					done <- tr.Send(env.msgs[mi])
+				}()
+				err, returned := patientRecv(done, 15*time.Second)
+				if !returned {
+					failf(rt, "history %v: the send did not return within 15 s", hist)
+				}
+				if err != nil && (strings.Contains(err.Error(), "address already in use") || strings.Contains(err.Error(), "cannot assign requested address") || strings.Contains(err.Error(), "too many open files")) {
+					V.ExtraAdd("scenarios_skipped_no_local_port", 1)
+					return
+				}
+				if err != nil {
+					failf(rt, "history %v: the send failed with %q although the destination %s accepts connections (a cached connection that is absent or fails must be replaced by a fresh connection)", hist, err, env.accept.addr)
+				}
+				V.Class("table: send through a per-transaction entry")
+				V.ClassIf(tx.removed && !final, "table: send after the entry was removed")
+			}
+		}
+		// every message written completely exactly once: on a scripted cached connection or on a connection the destination accepted
+		time.Sleep(300 * time.Microsecond)
+		for k := 0; k < sent && k < len(env.msgs); k++ {
+			wire := env.wires[k%len(env.msgs)]
+			want := 0
+			for j := k; j < sent; j += len(env.msgs) {
+				want++
+			}
+			copies := 0
+			budget := newPatience(5 * time.Second)
+			for {
+				copies = 0
+				for _, tx := range txns {
+					if tx.cached != nil {
+						tx.cached.mu.Lock()
+						for _, w := range tx.cached.writes {
+							if bytes.Equal(w, wire) {
+								copies++
+							}
+						}
+						tx.cached.mu.Unlock()
+					}
+				}
+				for _, rc := range env.accept.since(startA) {
+					copies += bytes.Count(rc.bytes(), wire)
+				}
+				if copies >= want || budget.spent() {
+					break
+				}
+				time.Sleep(100 * time.Microsecond)
+			}
+			if copies != want {
+				failf(rt, "history %v: message %d was sent %d time(s), every send reported success, but %d complete copies were written (on the cached connections and the connections the destination accepted)", hist, k, want, copies)
+			}
+		}
+		V.NonTrivial(strings.Join(hist, "|"))
+		V.SampleEvery(60, func() any { return hist })
 	})
 }
